@@ -1,5 +1,5 @@
 import IdspModel.Lemmas.Atan2Tab
-/-! `atani` table, chunk 0 of 10: quotient fields 0 … 8192 (complete range, evaluated by the kernel). -/
+/-! `atani` table, chunk 0 of 8: quotient fields 0 … 8192 (complete range, evaluated by the kernel). -/
 namespace Idsp
 
 theorem atanTab0 : atanRun 0 8193 = true := by decide +kernel
